@@ -301,6 +301,49 @@ pub fn test_cli(c: &CliCase, ctx: &mut CaseCtx) -> Result<(), String> {
     Ok(())
 }
 
+/// The JavaScript-facing linter asked again about the same text (every keystroke pause in an
+/// editor does that): every answer is conflict-free and equals the first.
+pub fn test_js_relint(c: &CliCase, ctx: &mut CaseCtx) -> Result<(), String> {
+    let mut linter = harper_wasm::Linter::new(harper_wasm::Dialect::American);
+    let lang = if c.rules.len() % 2 == 0 { harper_wasm::Language::Plain } else { harper_wasm::Language::Markdown };
+    let mut first: Option<Vec<(usize, usize, String)>> = None;
+    for round in 0..3 {
+        let Ok(got) = crate::core::catch(std::panic::AssertUnwindSafe(|| linter.lint(c.text.clone(), lang))) else {
+            ctx.class("skipped_c01_panic");
+            return Ok(());
+        };
+        let v: Vec<(usize, usize, String)> = got.iter().map(|l| (l.span().start, l.span().end, l.message())).collect();
+        for (i, a) in v.iter().enumerate() {
+            for b in &v[i + 1..] {
+                if a.0 < b.1 && b.0 < a.1 {
+                    return Err(format!(
+                        "call {} of Linter::lint on the same text {:?} returns overlapping lints {}..{} {:?} and {}..{} {:?}",
+                        round + 1, c.text, a.0, a.1, a.2, b.0, b.1, b.2
+                    ));
+                }
+            }
+        }
+        match &first {
+            None => first = Some(v),
+            Some(f) => {
+                if *f != v {
+                    return Err(format!("call {} of Linter::lint on the same text {:?} returns {} lints, the first call {}", round + 1, c.text, v.len(), f.len()));
+                }
+            }
+        }
+    }
+    // would overlap removal have had something to do?
+    let dict = FstDictionary::curated();
+    let doc = if matches!(lang, harper_wasm::Language::Plain) { Document::new(&c.text, &PlainEnglish, &dict) } else { Document::new(&c.text, &Markdown::default(), &dict) };
+    let raw = crate::core::catch(|| LintGroup::new_curated(dict.clone(), Dialect::American).lint(&doc)).unwrap_or_default();
+    let has_overlap = (0..raw.len()).any(|i| (i + 1..raw.len()).any(|j| overlap(&raw[i].span, &raw[j].span)));
+    ctx.class_if(has_overlap, "has_overlap");
+    if has_overlap {
+        ctx.nontrivial(c);
+    }
+    Ok(())
+}
+
 fn cli_strategy() -> BoxedStrategy<CliCase> {
     const PIECES: &[&str] = &[
         "I saw the the the cat on the mat.", "It is is is fine to to to to go there.",
@@ -329,7 +372,7 @@ fn spans_strategy(max_coord: usize, max_len: usize) -> BoxedStrategy<Spans> {
 }
 
 pub fn run(run: &mut Run) {
-    run.rule = "span lists: all ordered lists of <=4 spans over coordinates 0..=5 (exhaustive) and random lists of <=12 spans over 0..=12 / <=40 spans over 0..=60; real lint lists of generated plain/Markdown documents with all rules on; command_line_reports: the real harper-cli binary run on generated Markdown files (repeated words, runs of spaces, long sentences, G-TEXT) with no, one or two --only-lint-with rules — the multiset of messages in its report must equal that of a conflict-free sub-list (validated by the same predicate) of the lints these rules produce in-process. Non-trivial = input contains an overlapping pair; distinct by sorted span list / by text.".into();
+    run.rule = "span lists: all ordered lists of <=4 spans over coordinates 0..=5 (exhaustive) and random lists of <=12 spans over 0..=12 / <=40 spans over 0..=60; real lint lists of generated plain/Markdown documents with all rules on; js_api_repeated_lint: harper_wasm::Linter::lint called three times on the same text — every answer conflict-free and equal to the first; command_line_reports: the real harper-cli binary run on generated Markdown files (repeated words, runs of spaces, long sentences, G-TEXT) with no, one or two --only-lint-with rules — the multiset of messages in its report must equal that of a conflict-free sub-list (validated by the same predicate) of the lints these rules produce in-process. Non-trivial = input contains an overlapping pair; distinct by sorted span list / by text.".into();
     // E2: exhaustive small scope
     let mut spans = vec![];
     for s in 0..=5usize {
@@ -381,12 +424,19 @@ pub fn run(run: &mut Run) {
     run.prop("command_line_reports", n, cli_strategy, test_cli);
     run.max_shrink_iters = shrink;
     run.require_class("command_line_reports", "has_overlap", (n / 8) as u64);
+    let n2 = run.n(1_000, 30_000);
+    run.prop("js_api_repeated_lint", n2, cli_strategy, test_js_relint);
+    run.require_class("js_api_repeated_lint", "has_overlap", (n2 / 8) as u64);
     run.require_class("command_line_reports", "one_rule_overlapping_itself", (n / 40) as u64);
 }
 
 pub fn replay(check: &str, case: Value, _run: &mut Run) -> Result<(), String> {
     let mut ctx = CaseCtx::default();
     match check {
+        "js_api_repeated_lint" => {
+            let c: CliCase = serde_json::from_value(case).map_err(|e| e.to_string())?;
+            test_js_relint(&c, &mut ctx)
+        }
         "command_line_reports" => {
             let c: CliCase = serde_json::from_value(case).map_err(|e| e.to_string())?;
             test_cli(&c, &mut ctx)
